@@ -1057,6 +1057,19 @@ class Cond:
 
     __repr__ = show
 
+    def variant_is(self, idx, nvariants=2):
+        """for a discriminant fact: is the value certainly variant `idx` (Option/Result/Poll have
+        two variants, so `not 1` means 0)"""
+        if self.kind not in ('disc', 'int'):
+            return False
+        if self.value == idx:
+            return True
+        if isinstance(self.value, tuple) and self.value[0] == 'not':
+            excluded = set(int(v) for v in self.value[1])
+            rest = set(range(nvariants)) - excluded
+            return rest == {idx}
+        return False
+
     def brief(self, limit=200):
         if self.kind == 'cmp':
             return '%s %s %s' % (self.lhs.brief(limit), self.op, self.rhs.brief(limit))
